@@ -34,7 +34,44 @@ sys.exit(bad)
 '''
 
 
+ASFN = '''
+import sys
+import onnx
+from onnx import helper, TensorProto
+from onnxscript.rewriter import pattern
+import onnxscript.rewriter as rw
+def target(op, x, y):
+    return op.Relu(op.Add(x, y))
+def repl(op, x, y):
+    return op.AddRelu(x, y, _domain="some.domain")
+rule = pattern.RewriteRule(target, repl, as_function=True)
+def vi(n, s): return helper.make_tensor_value_info(n, TensorProto.FLOAT, s)
+then_g = helper.make_graph([helper.make_node("Add", ["x", "x"], ["t"]), helper.make_node("Relu", ["t"], ["o1"])], "then", [], [vi("o1", [2])])
+else_g = helper.make_graph([helper.make_node("Identity", ["x"], ["o2"])], "else", [], [vi("o2", [2])])
+g = helper.make_graph([helper.make_node("If", ["c"], ["y"], then_branch=then_g, else_branch=else_g)], "g",
+                      [vi("x", [2]), helper.make_tensor_value_info("c", TensorProto.BOOL, [])], [vi("y", [2])])
+m = helper.make_model(g, opset_imports=[helper.make_opsetid("", 18)], ir_version=9)
+onnx.checker.check_model(m)
+o = rw.rewrite(m, pattern_rewrite_rules=[rule])
+bad = 0
+for f in o.functions:
+    used = {n.domain for n in f.node}
+    have = {i.domain for i in f.opset_import}
+    if not used <= have:
+        print(f"function {f.domain}::{f.name} extracted from a match inside an If branch uses domains {sorted(used)} but imports {sorted(have)}")
+        bad += 1
+try:
+    onnx.checker.check_model(o)
+except Exception as e:
+    print("checker rejects the rewritten model:", str(e).splitlines()[0][:150])
+    bad += 1
+sys.exit(1 if bad else 0)
+'''
+
+
 def replay(ob):
+    if "as_function.function_imports" in ob["name"]:
+        return ASFN
     if "existing_initializer_with_the_same_name" in ob["name"]:
         return CLASH
     return None
